@@ -373,6 +373,17 @@ class TransitionDefinition:
         self.event: str = event
         self.source: "StateNode" = source
         self.target_str: Optional[str] = config.get("target")
+        # 🛡️ A target is a state reference: a string. Any other JSON type used
+        #    to be accepted here and surfaced as a raw `TypeError` from inside
+        #    `send()` when the transition was taken.
+        if self.target_str is not None and not isinstance(
+            self.target_str, str
+        ):
+            raise InvalidConfigError(
+                f"Transition on event '{event}' in state '{source.id}' has a "
+                f"'target' of type {type(self.target_str).__name__}; a state "
+                "reference must be a string."
+            )
         self.actions: List[ActionDefinition] = actions or []
 
         # 🛡️ Guard resolution.
@@ -466,6 +477,14 @@ class InvokeDefinition:
         )
         self.id: str = invoke_id
         self.src: Optional[str] = config.get("src")
+        # 🛡️ `src` names a service. A list or mapping is unhashable and used
+        #    to surface as a raw `TypeError` when the state was entered.
+        if isinstance(self.src, (dict, list)):
+            raise InvalidConfigError(
+                f"Invoke in state '{source.id}' has a 'src' of type "
+                f"{type(self.src).__name__}; a service reference must be a "
+                "string."
+            )
         self.input: Optional[Dict[str, Any]] = config.get("input")
         self.source: "StateNode" = source
         self.on_done: List[TransitionDefinition] = on_done
